@@ -122,6 +122,8 @@ impl MT942 {
         // Parse optional information to account owner
         let field_86 = parser.parse_optional_field::<Field86>("86")?;
 
+        crate::parser::utils::verify_parser_complete(&parser)?;
+
         Ok(MT942 {
             field_20,
             field_21,
